@@ -2963,6 +2963,8 @@ class ChannelManager:
             logger.exception('connection failed')
             del connection_channels[source_cid]
             raise
+        if channel.state != LeCreditBasedChannel.State.CONNECTED:
+            raise InvalidStateError('connection lost')
 
         # Remember the channel by source CID and destination CID
         le_connection_channels = self.le_coc_channels.setdefault(connection.handle, {})
